@@ -5,7 +5,7 @@
    rendering is a class body (a list of calls); [eval_body] is what executing it creates. *)
 From Coq Require Import List Arith Bool.
 Import ListNotations.
-From PySM Require Import Impl.Decl Proofs.DeclProofs.
+From PySM Require Import Impl.Engine Impl.Registry Impl.History Impl.Decl Proofs.DeclProofs Proofs.DeclBehaviour.
 
 Theorem C15_to_style : forall m, eval_body (render_to m) = m.
 Proof. exact to_style. Qed.
@@ -67,6 +67,37 @@ Proof. exact split_per_state. Qed.
 Print Assumptions C15_base_plus_subclass_per_state.
 
 
+(* ---- "the same behaviour on every event sequence" ---- *)
+(* the engine reads a declaration only through the ordered transition list of each source state:
+   two class bodies that agree on those lists - in whatever global order the calls created the
+   transitions - give the same observations (results, exceptions, stored state, allowed events,
+   callback log) on every history of operations, for every meaning of the keyword arguments, every
+   set of states, providers and options, every behaviour of the callbacks *)
+Theorem C15_per_state_lists_determine_behaviour :
+  forall kw md b1 b2,
+    (forall s, per_state (eval_body b1) s = per_state (eval_body b2) s) ->
+    forall beh fuel ops c,
+      run_ops beh (with_trans md (map (to_tdecl kw) (eval_body b1))) fuel ops c =
+      run_ops beh (with_trans md (map (to_tdecl kw) (eval_body b2))) fuel ops c.
+Proof. exact same_per_state_same_behaviour. Qed.
+Print Assumptions C15_per_state_lists_determine_behaviour.
+
+(* a rendering that really changes the global creation order: the body written state by state *)
+Theorem C15_regrouped_by_state_keeps_per_state_lists :
+  forall m ss, NoDup ss -> (forall t, In t m -> In (Decl.a_src t) ss) ->
+  forall s, per_state (regroup m ss) s = per_state m s.
+Proof. exact regroup_per_state. Qed.
+Print Assumptions C15_regrouped_by_state_keeps_per_state_lists.
+
+Theorem C15_statement_order_across_states_irrelevant :
+  forall kw md m ss, NoDup ss -> (forall t, In t m -> In (Decl.a_src t) ss) ->
+  forall beh fuel ops c,
+    run_ops beh (with_trans md (map (to_tdecl kw) (eval_body (render_to (regroup m ss))))) fuel ops c =
+    run_ops beh (with_trans md (map (to_tdecl kw) (eval_body (render_to m)))) fuel ops c.
+Proof. exact statement_order_across_states_irrelevant. Qed.
+Print Assumptions C15_statement_order_across_states_irrelevant.
+
+
 Definition ex_m : amachine :=
   [ {| a_src := 0; a_tgt := 1; a_events := [0]; a_kw := 7 |}; {| a_src := 0; a_tgt := 2; a_events := [0]; a_kw := 7 |};
     {| a_src := 1; a_tgt := 1; a_events := [1]; a_kw := 0 |}; {| a_src := 2; a_tgt := 0; a_events := [0; 1]; a_kw := 0 |} ].
@@ -74,3 +105,12 @@ Example C15_nonvacuous :
   length (render_multi_to ex_m) = 3 /\ eval_body (render_multi_to ex_m) = eval_body (render_from ex_m)
   /\ per_state (eval_body (render_itself ex_m)) 0 = firstn 2 ex_m.
 Proof. vm_compute. repeat split. Qed.
+
+(* the state-by-state body is another creation order, the hypotheses of the theorem hold for it *)
+Example C15_regroup_nonvacuous :
+  regroup ex_m [2; 0; 1] <> ex_m /\ NoDup [2; 0; 1] /\ (forall t, In t ex_m -> In (Decl.a_src t) [2; 0; 1]).
+Proof.
+  split; [vm_compute; discriminate|]. split.
+  - repeat constructor; simpl; intuition discriminate.
+  - intros t Ht. simpl in Ht. destruct Ht as [<-|[<-|[<-|[<-|[]]]]]; simpl; auto.
+Qed.
